@@ -732,9 +732,48 @@ def compare(I, op, a, b, node):
         if ca is not None and cb is not None:
             return {ast.Lt: chars_lt(ca, cb, True), ast.LtE: chars_lt(ca, cb, False),
                     ast.Gt: chars_lt(cb, ca, True), ast.GtE: chars_lt(cb, ca, False)}[type(op)]
+        # one side a literal: unroll the lexicographic order over the literal's characters (code points); the
+        # sequence solver is unreliable on str.< / str.<= with a symbolic operand
+        xs, ys = z3.simplify(x), z3.simplify(y)
+        if z3.is_string_value(xs) != z3.is_string_value(ys):
+            lit_left = z3.is_string_value(xs)
+            lit = _pystr(xs if lit_left else ys)
+            sym = ys if lit_left else xs
+            if lit is not None and len(lit) <= 40:
+                def sym_lt_lit(k, strict):      # sym[k:] < (<=) lit[k:]
+                    if k == len(lit):
+                        return z3.BoolVal(False) if strict else z3.Length(sym) == k
+                    a = z3.StrToCode(z3.SubString(sym, k, 1))
+                    return z3.Or(z3.Length(sym) == k,
+                                 z3.And(z3.Length(sym) > k,
+                                        z3.Or(a < ord(lit[k]), z3.And(a == ord(lit[k]), sym_lt_lit(k + 1, strict)))))
+                t = type(op)
+                if lit_left:     # lit OP sym
+                    return {ast.Lt: z3.Not(sym_lt_lit(0, False)), ast.LtE: z3.Not(sym_lt_lit(0, True)),
+                            ast.Gt: sym_lt_lit(0, True), ast.GtE: sym_lt_lit(0, False)}[t]
+                return {ast.Lt: sym_lt_lit(0, True), ast.LtE: sym_lt_lit(0, False),
+                        ast.Gt: z3.Not(sym_lt_lit(0, False)), ast.GtE: z3.Not(sym_lt_lit(0, True))}[t]
         return {ast.Lt: x < y, ast.LtE: x <= y, ast.Gt: y < x, ast.GtE: y <= x}[type(op)]
     if ka == kb and ka in ("list", "tuple"):
-        raise Unsupported("ordering of sequences", node)
+        # lexicographic order of two sequences of known length (Python: first differing pair decides, else length)
+        seqa = Val.items(sa) if ka == "list" else Val.titems(sa)
+        seqb = Val.items(sb) if kb == "list" else Val.titems(sb)
+        na, nb = z3.simplify(z3.Length(seqa)), z3.simplify(z3.Length(seqb))
+        if not (z3.is_int_value(na) and z3.is_int_value(nb)):
+            raise Unsupported("ordering of sequences of symbolic length", node)
+        ea = [z3.simplify(seqa[k]) for k in range(na.as_long())]
+        eb = [z3.simplify(seqb[k]) for k in range(nb.as_long())]
+        strict = isinstance(op, (ast.Lt, ast.Gt))
+        if isinstance(op, (ast.Gt, ast.GtE)):
+            ea, eb = eb, ea
+
+        def lex(k):     # ea[k:] < (or <=) eb[k:]
+            if k >= len(ea) or k >= len(eb):
+                return z3.BoolVal(len(ea) - k < len(eb) - k if strict else len(ea) - k <= len(eb) - k)
+            eq = compare(I, ast.Eq(), ea[k], eb[k], node)
+            lt = compare(I, ast.Lt(), ea[k], eb[k], node)
+            return z3.If(eq, lex(k + 1), lt)
+        return lex(0)
     I.throw("TypeError", "'<' not supported between these instances")
 
 
@@ -827,7 +866,8 @@ def comprehension(I, e, kind):
         dv, what = d.payload, d.name
         ks = concrete_keys(dv)
         if ks is None:
-            raise Unsupported("comprehension over a dict with symbolic key set", e)
+            # symbolic key set: a sequence of symbolic length with an element axiom (as in a for loop over the view)
+            return generic_comprehension(I, e, g, Val.items(I.dict_as_sequence(dv, what, e)), kind)
         elems = []
         for k in ks:
             v = z3.simplify(z3.Select(Val.dvals(dv), z3.StringVal(k)))
@@ -848,7 +888,7 @@ def comprehension(I, e, kind):
             if not z3.is_int_value(n):
                 if kind == "list" and not g.ifs:
                     return map_comprehension(I, e, g, seq)
-                raise Unsupported("comprehension over a sequence of symbolic length", e)
+                return generic_comprehension(I, e, g, seq, kind)
             elems = [z3.simplify(seq[i]) for i in range(n.as_long())]
     # comprehension scope: a child frame sharing the enclosing frame lexically
     fr = I.push_frame(I.frame.func, I.frame.module, I.frame, tag=f"<comp@{e.lineno}>")
@@ -872,6 +912,71 @@ def comprehension(I, e, kind):
         I.pop_frame()
 
 
+def _heap_changed(I, before):
+    for a, h in I.st.heap.items():
+        ref = before[a] if a in before else I.ctx.initial_heap(a)[0]
+        if not z3.eq(h, ref):
+            return True
+    return False
+
+
+def _has_call(node):
+    return any(isinstance(n, (ast.Call, ast.Await)) for n in ast.walk(node))
+
+
+def generic_comprehension(I, e, g, seq, kind):
+    """[f(x) for x in seq if c(x)] / {k(x): v(x) ...} over a sequence of symbolic length whose body may fork or raise:
+    the source is empty (empty result), or the body is evaluated on ONE generic element seq[k0] (0 <= k0 < len) - an
+    exception there is an exception of the comprehension; on normal completion the result is a fresh container of
+    the right size carrying the generic element's value at k0 (no filter) and otherwise unconstrained contents.
+    Sound over-approximation as long as the body has no side effect on the heap (checked)."""
+    if kind not in ("list", "dict"):
+        raise Unsupported(f"{kind} comprehension over a sequence of symbolic length", e)
+    n = z3.Length(seq)
+    if I.choose(n == 0, "comp_source_empty"):
+        return V.VDict([]) if kind == "dict" else V.VList([])
+    k0 = I.fresh_int("comp_k")
+    I.assume(z3.And(k0 >= 0, k0 < n))
+    elem = z3.simplify(seq[k0])
+    ax = getattr(I, "seq_axioms", {}).get(z3.simplify(seq).get_id())
+    if ax is not None:
+        ax(I, k0, elem)
+    heap_before = {a: h for a, h in I.st.heap.items()}
+    I.push_frame(I.frame.func, I.frame.module, I.frame, tag=f"<comp@{e.lineno}>")
+    try:
+        I.assign(g.target, elem)
+        included = True
+        for c in g.ifs:
+            if not I.truth(I.eval(c), "comp_if"):
+                included = False
+                break
+        key = val = None
+        if included:
+            if kind == "dict":
+                key, val = I.eval(e.key), I.eval(e.value)
+            else:
+                val = I.eval(e.elt)
+    finally:
+        I.pop_frame()
+    if _heap_changed(I, heap_before):
+        raise Unsupported("comprehension body with a side effect on the heap", e)
+    I.counter += 1
+    if kind == "list":
+        R = z3.Const(f"compseq~{I.counter}", V.SeqVal)
+        if g.ifs:
+            I.assume(z3.And(z3.Length(R) >= (1 if included else 0), z3.Length(R) <= n))
+        else:
+            I.assume(z3.And(z3.Length(R) == n, R[k0] == val))
+        return V.VList(R)
+    D = I.fresh("compdict")
+    I.assume(z3.And(V.is_dict(D), Val.dsize(D) >= (1 if included else 0), Val.dsize(D) <= n, Val.did(D) >= 1_000_000))
+    if included:
+        sk = z3.simplify(key)
+        if V.ctor_name(sk) == "str" and not g.ifs:
+            I.assume(z3.And(z3.Select(Val.dkeys(D), Val.s(sk))))
+    return D
+
+
 def map_comprehension(I, e, g, seq):
     """[f(x) for x in seq] over a sequence of symbolic length: a fresh sequence R of the same length with
     R[k] == f(seq[k]) for all k.  f is the real element expression, evaluated once on a generic element; the
@@ -881,12 +986,32 @@ def map_comprehension(I, e, g, seq):
     if kind_hint == "str":
         I.assume(V.is_str(elem))
     I.push_frame(I.frame.func, I.frame.module, I.frame, tag=f"<mapcomp@{e.lineno}>")
+    def generic_element():
+        # the body forked / raised / made fresh values: `elem` was ONE generic element of a non-empty source
+        k0 = I.fresh_int("comp_k")
+        I.assume(z3.And(k0 >= 0, k0 < z3.Length(seq), elem == seq[k0]))
+        return k0
+    heap_before = {a: h for a, h in I.st.heap.items()}
     try:
         n_dec, n_cnt = len(I.decisions), I.counter
-        I.assign(g.target, elem)
-        val = I.eval(e.elt)
+        try:
+            I.assign(g.target, elem)
+            val = I.eval(e.elt)
+        except PyRaise:
+            if I.choose(z3.Length(seq) == 0, "comp_source_empty"):
+                return V.VList([])           # (the decisions above only constrained the unrelated fresh element)
+            generic_element()
+            raise
         if len(I.decisions) != n_dec or I.counter != n_cnt:
-            raise Unsupported("comprehension body is not a pure function of the element", e)
+            if _heap_changed(I, heap_before):
+                raise Unsupported("comprehension body with a side effect on the heap", e)
+            if I.choose(z3.Length(seq) == 0, "comp_source_empty"):
+                return V.VList([])
+            k0 = generic_element()
+            I.counter += 1
+            R = z3.Const(f"compseq~{I.counter}", V.SeqVal)
+            I.assume(z3.And(z3.Length(R) == z3.Length(seq), R[k0] == val))
+            return V.VList(R)
     finally:
         I.pop_frame()
     I.counter += 1
